@@ -1,6 +1,7 @@
 package core
 
 import (
+	"sync"
 	"fmt"
 	"go/constant"
 	"go/token"
@@ -188,6 +189,169 @@ func IsNilConst(v ssa.Value) bool {
 // (x.Load() on atomic.Int64 / Uint64 / Int32 / Uint32 / Uintptr / Bool / Pointer[T]) are recognised; for the
 // methods the address operand is the receiver. atomic.Value is not an atomic word in this sense.
 func AtomicOp(c ssa.CallInstruction) (op string, addr ssa.Value, ok bool) {
+	if op, addr, ok = rawAtomicOp(c); ok {
+		return
+	}
+	// an accessor: a one-block function that does nothing but one atomic operation on a field of its receiver
+	// (m.getTable(), m.setTable(t), m.resizeFlag()) is that operation; the address is the accessor's own field address,
+	// which classifies (owner type, field) like any other
+	if cal := Callee(c); cal != nil && cal.Blocks != nil && len(cal.Params) > 0 {
+		if _, allowed := accessorOwners.Load(namedOf(cal.Params[0].Type())); allowed {
+			if a := atomicAccessor(cal); a != nil {
+				return a.op, a.addr, true
+			}
+		}
+	}
+	return "", nil, false
+}
+
+// accessorOwners: the struct types (by name) whose one-operation accessors are transparent: the map types and the
+// struct that holds their resize state. Bucket-level helpers are analysed by the rules that know them.
+var accessorOwners sync.Map
+
+func RegisterAccessorOwner(name string) {
+	if name != "" {
+		accessorOwners.Store(name, true)
+	}
+}
+
+// AtomicBase is the value, in the function containing c, that the operated word's address is derived from: the
+// address operand itself, or the receiver argument of an accessor.
+func AtomicBase(c ssa.CallInstruction) ssa.Value {
+	if _, addr, ok := rawAtomicOp(c); ok {
+		return addr
+	}
+	if len(c.Common().Args) > 0 {
+		return c.Common().Args[0]
+	}
+	return nil
+}
+
+// IsAccessorCall: c is a call of a transparent accessor (not the atomic operation itself).
+func IsAccessorCall(c ssa.CallInstruction) bool {
+	if _, _, ok := rawAtomicOp(c); ok {
+		return false
+	}
+	_, _, ok := AtomicOp(c)
+	return ok
+}
+
+type accessorInfo struct {
+	op   string
+	addr ssa.Value
+	call *ssa.Call // the atomic operation inside the accessor
+}
+
+// AtomicArgs are the operands of the atomic operation after the address (the stored value; old and new of a CAS), as
+// values of the function containing c: an accessor's parameters are replaced by the call's arguments.
+func AtomicArgs(c ssa.CallInstruction) []ssa.Value {
+	if _, _, ok := rawAtomicOp(c); ok {
+		return c.Common().Args[1:]
+	}
+	cal := Callee(c)
+	if cal == nil || cal.Blocks == nil {
+		return nil
+	}
+	a := atomicAccessor(cal)
+	if a == nil {
+		return nil
+	}
+	var out []ssa.Value
+	for _, v := range a.call.Call.Args[1:] {
+		switch x := StripConv(v).(type) {
+		case *ssa.Parameter:
+			for i, p := range cal.Params {
+				if p == x && i < len(c.Common().Args) {
+					out = append(out, c.Common().Args[i])
+				}
+			}
+		default:
+			out = append(out, x)
+		}
+	}
+	return out
+}
+
+// AtomicLastArg: the stored / new value of a writing atomic operation, nil if there is none.
+func AtomicLastArg(c ssa.CallInstruction) ssa.Value {
+	as := AtomicArgs(c)
+	if len(as) == 0 {
+		return nil
+	}
+	return as[len(as)-1]
+}
+
+
+// AtomicAccessor reports whether f is a transparent accessor of one atomic word.
+func AtomicAccessor(f *ssa.Function) bool {
+	if f == nil || f.Blocks == nil || len(f.Params) == 0 {
+		return false
+	}
+	if _, allowed := accessorOwners.Load(namedOf(f.Params[0].Type())); !allowed {
+		return false
+	}
+	return atomicAccessor(f) != nil
+}
+
+func atomicAccessor(f *ssa.Function) *accessorInfo {
+	// not memoised: keyed by function it would keep every analysed program alive (the controls battery loads thousands)
+	var res *accessorInfo
+	if len(f.Blocks) != 1 || len(f.Params) == 0 || f.Pkg == nil || f.Pkg.Pkg.Path() == "sync/atomic" {
+		return nil
+	}
+	if _, isPtr := f.Params[0].Type().Underlying().(*types.Pointer); !isPtr {
+		return nil
+	}
+	var call ssa.CallInstruction
+	var found *accessorInfo
+	for _, in := range f.Blocks[0].Instrs {
+		switch x := in.(type) {
+		case *ssa.FieldAddr, *ssa.Convert, *ssa.ChangeType, *ssa.DebugRef:
+		case *ssa.Call:
+			if call != nil {
+				return nil
+			}
+			op, addr, ok := rawAtomicOp(x)
+			if !ok {
+				return nil
+			}
+			base := addr
+			for {
+				fa, ok := base.(*ssa.FieldAddr)
+				if !ok {
+					break
+				}
+				base = fa.X
+			}
+			if base != ssa.Value(f.Params[0]) || base == addr {
+				return nil
+			}
+			for _, a := range x.Call.Args[1:] {
+				switch StripConv(a).(type) {
+				case *ssa.Parameter, *ssa.Const:
+				default:
+					return nil
+				}
+			}
+			call = x
+			found = &accessorInfo{op, addr, x}
+		case *ssa.Return:
+			for _, r := range x.Results {
+				if call == nil || StripConv(r) != call.Value() {
+					if ex, ok := StripConv(r).(*ssa.Extract); !ok || call == nil || ex.Tuple != call.Value() {
+						return nil
+					}
+				}
+			}
+		default:
+			return nil
+		}
+	}
+	res = found
+	return res
+}
+
+func rawAtomicOp(c ssa.CallInstruction) (op string, addr ssa.Value, ok bool) {
 	id := CalleeID(c)
 	args := c.Common().Args
 	if len(args) == 0 {
